@@ -72,7 +72,7 @@ ABSTRACT = {
 
 CALL_KINDS = {
     # -> str
-    **{k: "S" for k in ("str", "soft_str", "to_liquid_string", "escape", "Markup", "repr", "chr", "quote_plus", "unquote_plus", "quote", "unquote", "format", "hex", "oct", "bin", "ascii", "strip_tags", "unescape")},
+    **{k: "S" for k in ("str", "to_str", "soft_str", "to_liquid_string", "escape", "Markup", "repr", "chr", "quote_plus", "unquote_plus", "quote", "unquote", "format", "hex", "oct", "bin", "ascii", "strip_tags", "unescape")},
     # -> int
     **{k: "I" for k in ("int", "len", "to_int", "ord", "ceil", "floor", "hash", "id", "int_arg", "getsizeof")},
     "float": "F",
